@@ -34,6 +34,10 @@ coq/srctie/OptionsGenEquiv.v.  Rules (each is part of the trusted base; see coq/
      InvalidDecimalOperation: ctx.prec += 1; S` (same S) is S in exact arithmetic; the body of the
      `isinstance(number, only_complex_number)` branch is outside the universe (Err EType; the test is false on
      every atom).
+ S4  _diff_str: difflib.unified_diff(x.splitlines(), y.splitlines(), lineterm=''), list(diff) and '\\n'.join(diff) are the hand
+     model's oracle udiff on the two texts (AttributeError when an operand is not a str); level.additional['diff'] = e sets the
+     level's diff text.
+ S5  `try: x = b.decode('ascii') except UnicodeDecodeError: <simple statements>` = py_try_decode_ascii + match.
  S3  _diff_dict: only the contiguous slice from the statement that first assigns t1_clean_to_keys to the one that
      assigns t_keys_removed is translated (free: t1_keys, t2_keys; no other statement of the function assigns
      the slice's variables after it).
@@ -89,7 +93,7 @@ HELPER_CONSTS = {
     "numbers": "only_numbers + datetimes",
     "KEY_TO_VAL_STR": "'{}:{}'",
 }
-COQTY = {"bool": "bool", "str": "pystr", "obj": "atom", "text": "ptext", "optN": "option N", "N": "N", "optdy": "option dy",
+COQTY = {"difftext": "pystr", "bool": "bool", "str": "pystr", "obj": "atom", "text": "ptext", "optN": "option N", "N": "N", "optdy": "option dy",
          "dy": "dy", "notation": "notation", "level": "plevel", "dict": "pydict", "optdict": "option pydict",
          "keys": "list atom", "pnum": "pnum", "tmpl": "pystr", "out": "list entry", "opttunit": "option tunit"}
 RESERVED = {"using", "type", "end", "in", "at", "as", "return", "match", "with", "fun", "let", "if", "then", "else", "fix", "for",
@@ -104,8 +108,10 @@ def vname(n):
 
 
 def coq_str(s):
+    if any(ord(c) > 127 for c in s):
+        raise Unsupported("string constant %r outside ASCII" % (s,))
     if not all(32 <= ord(c) < 127 for c in s) or '"' in s:
-        raise Unsupported("string constant %r outside printable ASCII" % (s,))
+        return "[%s]%%N" % "; ".join(str(ord(c)) for c in s)
     return '(s2p "%s")' % s
 
 
@@ -329,6 +335,8 @@ class Fn:
             return ls, "false"
         if ty == "opttunit" or ty == "optdict":
             return ls, "(py_truthy_opt %s)" % t
+        if ty == "difftext":
+            return ls, "(py_nonempty %s)" % t
         if ty != "bool":
             self.bad(e, "truthiness of a %s" % ty)
         return ls, t
@@ -337,6 +345,12 @@ class Fn:
         if len(e.ops) != 1:
             self.bad(e, "chained comparison")
         op, r = e.ops[0], e.comparators[0]
+        if isinstance(op, ast.Eq) and all(isinstance(x, ast.Call) and dotted(x.func) == "type" and len(x.args) == 1 and not x.keywords for x in (e.left, r)):
+            l1, t1, y1 = self.expr(e.left.args[0], env)
+            l2, t2, y2 = self.expr(r.args[0], env)
+            if (y1, y2) != ("obj", "obj"):
+                self.bad(e, "type() of %s, %s" % (y1, y2))
+            return l1 + l2, "(py_type_eq %s %s)" % (t1, t2), "bool"
         l1, t1, y1 = self.expr(e.left, env)
         l2, t2, y2 = self.expr(r, env)
         ls = l1 + l2
@@ -346,6 +360,10 @@ class Fn:
             return ls, "(py_ne %s %s)" % (t1, t2), "bool"
         if isinstance(op, ast.NotEq) and (y1, y2) == ("text", "text"):
             return ls, "(py_text_ne %s %s)" % (t1, t2), "bool"
+        if isinstance(op, ast.Eq) and (y1, y2) == ("obj", "obj"):
+            return ls, "(py_eqv %s %s)" % (t1, t2), "bool"
+        if isinstance(op, ast.In) and (y1, y2) == ("str", "obj"):
+            return ls, "(py_str_in %s %s)" % (t1, t2), "bool"
         if isinstance(op, ast.Eq) and (y1, y2) == ("pnum", "zero"):
             return ls, "(py_eq_zero %s)" % t1, "bool"
         if isinstance(op, ast.Eq) and (y1, y2) == ("N", "N"):
@@ -421,6 +439,27 @@ class Fn:
                 self.bad(e, "datetime_normalize of a %s" % ty)
             v = self.tmp()
             return ls + ["do %s <- py_datetime_normalize F %s;" % (v, t)], v, "obj"
+        if d == "difflib.unified_diff":
+            # S4: difflib.unified_diff(x.splitlines(), y.splitlines(), lineterm='') = the oracle udiff on the two texts
+            ok = (len(e.args) == 2 and len(e.keywords) == 1 and e.keywords[0].arg == "lineterm" and ast.unparse(e.keywords[0].value) == "''"
+                  and all(isinstance(a, ast.Call) and isinstance(a.func, ast.Attribute) and a.func.attr == "splitlines" and not a.args and not a.keywords
+                          for a in e.args))
+            if not ok or not self.spec.get("needs_udiff"):
+                self.bad(e, "difflib.unified_diff outside the shape of rule S4")
+            ls, ts = [], []
+            for a in e.args:
+                l, t, y = self.expr(a.func.value, env)
+                if y != "obj":
+                    self.bad(e, "splitlines of a %s" % y)
+                ls += l
+                ts.append(t)
+            v = self.tmp()
+            return ls + ["do %s <- py_unified_diff udiff %s;" % (v, " ".join(ts))], v, "difftext"
+        if d == "list" and len(e.args) == 1 and not e.keywords:
+            ls, t, ty = self.expr(e.args[0], env)
+            if ty != "difftext":
+                self.bad(e, "list() of a %s" % ty)
+            return ls, t, "difftext"
         if d == "round":
             ls, ts = self.typed_args(e, env, [("number", "pnum"), ("ndigits", "N")])
             v = self.tmp()
@@ -450,6 +489,11 @@ class Fn:
                 if f.attr in self.tr.funcs:
                     return self.gcall(e, env, f.attr)
                 self.bad(e, "call of self.%s" % f.attr)
+            if f.attr == "join" and isinstance(f.value, ast.Constant) and f.value.value == "\n" and len(e.args) == 1 and not e.keywords:
+                ls, t, ty = self.expr(e.args[0], env)
+                if ty != "difftext":
+                    self.bad(e, "'\\n'.join of a %s" % ty)
+                return ls, t, "str"
             if f.attr == "format":
                 fl, ft, fy = self.expr(f.value, env)
                 if fy == "fmt" and len(e.args) == 1 and not e.keywords:
@@ -516,6 +560,8 @@ class Fn:
                         add(t.value.id)
                     elif isinstance(t, ast.Subscript) and isinstance(t.value, ast.Name):
                         add(t.value.id)
+                    elif isinstance(t, ast.Subscript) and isinstance(t.value, ast.Attribute) and isinstance(t.value.value, ast.Name):
+                        add(t.value.value.id)
             elif isinstance(s, ast.If):
                 for n in self.assigned(s.body) + self.assigned(s.orelse):
                     add(n)
@@ -527,7 +573,7 @@ class Fn:
                         for n in self.assigned(q.body):
                             add(n)
             elif isinstance(s, ast.Try):
-                for n in self.assigned(s.body):
+                for n in self.assigned(s.body) + [x for h in s.handlers for x in self.assigned(h.body)]:
                     add(n)
         return out
 
@@ -713,6 +759,13 @@ class Fn:
             elif isinstance(tg, ast.Attribute) and isinstance(tg.value, ast.Name) and env.get(tg.value.id) == "level" and tg.attr in ("t1", "t2"):
                 c, t2 = self.coerce(s, src_t, y, "obj")
                 out += c + ["let %s := lv_set_%s %s %s in" % (vname(tg.value.id), tg.attr, vname(tg.value.id), t2)]
+            elif (isinstance(tg, ast.Subscript) and isinstance(tg.value, ast.Attribute) and tg.value.attr == "additional"
+                  and isinstance(tg.value.value, ast.Name) and env.get(tg.value.value.id) == "level"
+                  and isinstance(tg.slice, ast.Constant) and tg.slice.value == "diff"):
+                if y != "str":
+                    self.bad(tg, "level.additional['diff'] = <%s>" % y)
+                lvn = vname(tg.value.value.id)
+                out.append("let %s := lv_set_diff %s (Some %s) in" % (lvn, lvn, src_t))
             elif isinstance(tg, ast.Subscript) and isinstance(tg.value, ast.Name) and env.get(tg.value.id) == "dict":
                 l2, k2, ky = self.expr(tg.slice, env)
                 c1, k2 = self.coerce(s, k2, ky, "obj")
@@ -722,8 +775,42 @@ class Fn:
                 self.bad(tg, "assignment target")
         return out
 
+    def try_decode(self, s, env):
+        """S5: try: x = <bytes>.decode('ascii') / except UnicodeDecodeError: <simple statements>"""
+        b = s.body[0]
+        v = b.value
+        ok = (isinstance(b, ast.Assign) and len(b.targets) == 1 and isinstance(b.targets[0], ast.Name) and isinstance(v, ast.Call)
+              and isinstance(v.func, ast.Attribute) and v.func.attr == "decode" and len(v.args) == 1 and not v.keywords
+              and isinstance(v.args[0], ast.Constant) and v.args[0].value == "ascii" and s.handlers[0].name is None)
+        if not ok:
+            self.bad(s, "try statement outside the decode shape")
+        ls, t, ty = self.expr(v.func.value, env)
+        if ty != "obj":
+            self.bad(s, "decode of a %s" % ty)
+        x = b.targets[0].id
+        vs = [n for n in self.assigned([s]) if n not in self.erased]
+        for n in vs:
+            if n not in env:
+                self.bad(s, "local %r is not bound before this try statement" % n)
+        tys = {n: env[n] for n in vs}
+        if tys.get(x) != "obj":
+            self.bad(s, "the decoded text is assigned to a %s" % tys.get(x))
+        r, dv = self.tmp("d"), self.tmp()
+        e2 = dict(env)
+        hb = self.block(s.handlers[0].body, e2, ("join", vs, tys), 2)
+        tup = vname(vs[0]) if len(vs) == 1 else "(" + ", ".join(vname(n) for n in vs) + ")"
+        out = ls + ["do %s <- py_try_decode_ascii %s;" % (r, t),
+                    "do %s <- (match %s with" % ("j" + r if len(vs) > 1 else vname(vs[0]), r),
+                    "  | Some %s => (" % dv, "    let %s := %s in" % (vname(x), dv), "    Ok %s" % tup, "  )", "  | None => ("] + hb + ["  )", "  end);"]
+        if len(vs) > 1:
+            out.append("let '%s := j%s in" % (tup, r))
+        return out
+
     def try_(self, s, env):
         """S2: try: x = TABLE[k] / except KeyError: raise ValueError(...) from None"""
+        if (len(s.body) == 1 and len(s.handlers) == 1 and not s.orelse and not s.finalbody
+                and isinstance(s.handlers[0].type, ast.Name) and s.handlers[0].type.id == "UnicodeDecodeError"):
+            return self.try_decode(s, env)
         ok = (len(s.body) == 1 and isinstance(s.body[0], ast.Assign) and len(s.body[0].targets) == 1
               and isinstance(s.body[0].targets[0], ast.Name) and len(s.handlers) == 1 and not s.orelse and not s.finalbody
               and isinstance(s.handlers[0].type, ast.Name) and s.handlers[0].type.id == "KeyError" and s.handlers[0].name is None
@@ -825,6 +912,8 @@ class Fn:
         lines += self.block(stmts, env, ("tail",), 1)
         ps = "".join(" (%s : %s)" % (vname(p), COQTY[t]) for p, t in params)
         rt = "(list entry)" if self.spec["ret"] == "out" else self.spec.get("coq_ret") or "(%s)" % COQTY[self.spec["ret"]]
+        if self.spec.get("needs_udiff"):
+            ps = " (udiff : pystr -> pystr -> pystr)" + ps
         head = "Definition %s%s%s : res %s :=" % (self.spec["gname"], " (F : opts)" if self.spec.get("needsF") else "", ps, rt)
         return "(* %s, %s:%d *)\n%s\n%s.\n" % (self.fdef.name, self.src, self.fdef.lineno, head, "\n".join(lines))
 
@@ -848,6 +937,8 @@ FUNCS = {
                                        params=[("self", "self"), ("keys", "keys"), ("level", "erase")]),
     "_diff_booleans": dict(src=DIFF, cls="DeepDiff", gname="g_diff_booleans", ret="out", needsF=True, defaults=["None"],
                            params=[("self", "self"), ("level", "level"), ("local_tree", "erase")]),
+    "_diff_str": dict(src=DIFF, cls="DeepDiff", gname="g_diff_str", ret="out", needsF=True, needs_udiff=True, defaults=["None"],
+                      params=[("self", "self"), ("level", "level"), ("local_tree", "erase")]),
     "_diff_numbers": dict(src=DIFF, cls="DeepDiff", gname="g_diff_numbers", ret="out", needsF=True, defaults=["None", "True"],
                           params=[("self", "self"), ("level", "level"), ("local_tree", "erase"), ("report_type_change", "bool")]),
     "_diff_datetime": dict(src=DIFF, cls="DeepDiff", gname="g_diff_datetime", ret="out", needsF=True, defaults=["None"],
@@ -856,7 +947,7 @@ FUNCS = {
                        params=[("self", "self"), ("level", "level"), ("local_tree", "erase")]),
 }
 ORDER = ["get_significant_digits", "number_to_string", "_get_clean_to_keys_mapping", "_diff_booleans", "_diff_numbers",
-         "_diff_datetime", "_diff_time"]
+         "_diff_datetime", "_diff_time", "_diff_str"]
 SLICE_VARS = ["t1_clean_to_keys", "t2_clean_to_keys", "t1_keys", "t2_keys", "t_keys_intersect", "t_keys_added", "t_keys_removed"]
 
 
@@ -1089,7 +1180,7 @@ class Translator:
 
 
 HEADER = """(* GENERATED by /verif/harness/translate/optionskeys.py from %s (DeepDiff._get_clean_to_keys_mapping, the key-set slice of
-   _diff_dict, _diff_booleans, _diff_numbers, _diff_datetime, _diff_time), %s (Base.get_significant_digits) and %s
+   _diff_dict, _diff_booleans, _diff_numbers, _diff_datetime, _diff_time, _diff_str), %s (Base.get_significant_digits) and %s
    (number_to_string, number_formatting, KEY_TO_VAL_STR).  DO NOT EDIT: regenerated from the current source on every run of
    ./check C11.  Definitions only.  Types and primitives are those of DD.Options.YValue / YModel / OptSrcPrims; none of the
    hand model's functions for these fragments (clean_key, clean_map, kmap, ckeys, numD, dtD, timeD, nstr) is used; `self.significant_digits`
